@@ -235,6 +235,66 @@ ResampleSame(t, xs) ==
      [d |-> Out([k \in 1..n |-> IF k < n THEN d[k] ELSE d[n - 1]], t.f,
                 {<<k, d[k - 1]>> : k \in {j \in 2..(n - 1) : d[j - 1] # d[j]}}, {}, {}, FALSE)]
 
+(* csg_resample --type linear|cubic|akima --grid <unit lattice (x0+j)*h, j = 0..g[n]> --derivative on a NON-equidistant
+   input table ("Change grid and interval of any sort of table files"; default boundaries: natural).
+     linear: the piecewise linear interpolant; its derivative at an inner knot is two-valued
+     cubic : THE natural cubic spline (C2, second derivative 0 at both ends) - a unique function with rational values on
+             rational data: second derivatives M from the tridiagonal continuity equations (solved exactly), value and
+             derivative from the standard form  S = A*y_k + B*y_(k+1) + ((A^3-A)*M_k + (B^3-B)*M_(k+1))*h^2/6
+     akima : interpolates (value at every knot); data on a straight line are reproduced, otherwise the values between
+             the knots are not asserted here (end-point conventions differ; see C12)
+   All three reproduce a straight line exactly (value a*x+b, derivative a everywhere).
+   Flags: a lattice point that is a knot keeps the knot's flag; between two knots the flag of either.          *)
+NatSplineM(y, xs) ==
+  LET n == Len(y)
+      hh(k) == RSub(xs[k + 1], xs[k])
+      a(k) == RMul(hh(k - 1), <<1, 6>>)
+      b(k) == RMul(RAdd(hh(k - 1), hh(k)), <<1, 3>>)
+      c(k) == RMul(hh(k), <<1, 6>>)
+      d(k) == RSub(RDiv(RSub(y[k + 1], y[k]), hh(k)), RDiv(RSub(y[k], y[k - 1]), hh(k - 1)))
+      RECURSIVE den(_), cp(_), dp(_), M(_)
+      den(k) == IF k = 2 THEN b(2) ELSE RSub(b(k), RMul(a(k), cp(k - 1)))
+      cp(k) == RDiv(c(k), den(k))
+      dp(k) == IF k = 2 THEN RDiv(d(2), b(2)) ELSE RDiv(RSub(d(k), RMul(a(k), dp(k - 1))), den(k))
+      M(k) == IF k = 1 \/ k = n THEN RZero ELSE IF k = n - 1 THEN dp(k) ELSE RSub(dp(k), RMul(cp(k), M(k + 1)))
+  IN [k \in 1..n |-> M(k)]
+SplVal(y, xs, M, k, x) ==
+  LET h == RSub(xs[k + 1], xs[k])
+      A == RDiv(RSub(xs[k + 1], x), h)
+      B == RDiv(RSub(x, xs[k]), h)
+      cub(u) == RSub(RMul(u, RSq(u)), u)
+  IN RAdd(RAdd(RMul(A, y[k]), RMul(B, y[k + 1])),
+          RMul(RAdd(RMul(cub(A), M[k]), RMul(cub(B), M[k + 1])), RMul(RSq(h), <<1, 6>>)))
+SplDer(y, xs, M, k, x) ==
+  LET h == RSub(xs[k + 1], xs[k])
+      A == RDiv(RSub(xs[k + 1], x), h)
+      B == RDiv(RSub(x, xs[k]), h)
+      q(u) == RMul(RSub(RMul(RI(3), RSq(u)), RI(1)), RMul(h, <<1, 6>>))
+  IN RAdd(RDiv(RSub(y[k + 1], y[k]), h), RSub(RMul(q(B), M[k + 1]), RMul(q(A), M[k])))
+ResampleSpline(t, xs, g, x0, h, type, isline) ==
+  LET n == Nn(t)
+      G == g[n]
+      iv == ExpandIv(g, 1, n - 1)
+      K(j) == IF j = G THEN n - 1 ELSE iv[j + 1]                 \* an interval that contains lattice point j (0..G)
+      us == [k \in 1..n |-> RI(x0 + g[k])]                     \* abscissae in units of h (integers: small numbers);
+      X(j) == RI(x0 + j)                                         \* dS/dx = (dS/du)/h
+      knot(j) == \E k \in 1..n : g[k] = j
+      kn(j) == CHOOSE k \in 1..n : g[k] = j
+      M == IF type = "cubic" /\ ~isline THEN NatSplineM(t.y, us) ELSE [k \in 1..n |-> RZero]     \* M = 0: piecewise linear
+      open == type = "akima" /\ ~isline
+      sl == DiffY(t.y, xs)
+      P == 0..G
+  IN Out([p \in 1..(G + 1) |-> SplVal(t.y, us, M, K(p - 1), X(p - 1))],
+         [p \in 1..(G + 1) |-> IF knot(p - 1) THEN t.f[kn(p - 1)] ELSE t.f[K(p - 1) + 1]],
+         {}, {p \in 1..(G + 1) : open /\ ~knot(p - 1)},
+         {<<p, <<t.f[K(p - 1)], t.f[K(p - 1) + 1]>>>> : p \in {i \in 1..(G + 1) : ~knot(i - 1)}}, FALSE) @@
+     [d |-> Out([p \in 1..(G + 1) |-> RDiv(SplDer(t.y, us, M, K(p - 1), X(p - 1)), h)],
+                [p \in 1..(G + 1) |-> IF knot(p - 1) THEN t.f[kn(p - 1)] ELSE t.f[K(p - 1) + 1]],
+                IF type = "linear" /\ ~isline          \* slope of the left interval at an inner knot
+                THEN {<<p, sl[kn(p - 1) - 1]>> : p \in {i \in 2..G : knot(i - 1) /\ sl[kn(i - 1) - 1] # sl[kn(i - 1)]}} ELSE {},
+                {p \in 1..(G + 1) : open},
+                {<<p, <<t.f[K(p - 1)], t.f[K(p - 1) + 1]>>>> : p \in {i \in 1..(G + 1) : ~knot(i - 1)}}, FALSE)]
+
 \* "integration and differentiation being inverse to each other": derivative of the integral of a
 \* table = the table's linear interpolant at the midpoints, whatever the zero point
 MidAvg(y) == [k \in 1..(Len(y) - 1) |-> RMul(<<1, 2>>, RAdd(y[k], y[k + 1]))]
@@ -306,6 +366,9 @@ ExF(fn, C, y0, m, d) ==
     [] fn \in {"linear", "periodic"} -> RAdd(RMul(m, d), y0)
     [] fn = "quadratic" -> RAdd(RAdd(RMul(C, RSq(d)), RMul(m, d)), y0)
     [] fn = "sasha" -> RDiv(RSq(RAdd(RMul(m, d), RMul(RI(2), y0))), RMul(RI(4), y0))
+    [] fn = "exponential" -> y0      \* placeholder; the value is y0*exp(ExLog), see Extrapolate.lg
+\* exponential: y = a*exp(b*x), a = y0*exp(-m*x0/y0), b = m/y0, i.e. ln(y/y0) = m*(x-x0)/y0: the logarithm is rational
+ExLog(y0, m, d) == RDiv(RMul(m, d), y0)
 ExFDoc(fn, C, x0, y0, m, x) ==
   CASE fn = "constant" -> y0
     [] fn \in {"linear", "periodic"} -> RAdd(RMul(m, x), RAdd(RNeg(RMul(m, x0)), y0))
@@ -327,8 +390,12 @@ Extrapolate(t, xs, fn, region, A, C, fu) ==
             ELSE IF fn = "periodic"
                  THEN (IF la = n THEN RZero ELSE RDiv(RSub(yl[1], t.y[la]), RSub(xs[n], xs[la])))
                  ELSE RDiv(RSub(t.y[la], t.y[la - A]), RSub(xs[la], xs[la - A]))
-  IN Exact([k \in 1..n |-> IF doR /\ k > la THEN ExF(fn, C, t.y[la], mr, RSub(xs[k], xs[la])) ELSE yl[k]],
-           [k \in 1..n |-> IF fu /\ ((doL /\ k < fi) \/ (doR /\ k > la)) THEN "i" ELSE t.f[k]])
+      lg == IF fn # "exponential" THEN {}
+            ELSE {<<k, t.y[fi], ExLog(t.y[fi], ml, RSub(xs[k], xs[fi]))>> : k \in {j \in 1..(fi - 1) : doL}}
+                 \cup {<<k, t.y[la], ExLog(t.y[la], mr, RSub(xs[k], xs[la]))>> : k \in {j \in (la + 1)..n : doR}}
+  IN Out([k \in 1..n |-> IF doR /\ k > la THEN ExF(fn, C, t.y[la], mr, RSub(xs[k], xs[la])) ELSE yl[k]],
+         [k \in 1..n |-> IF fu /\ ((doL /\ k < fi) \/ (doR /\ k > la)) THEN "i" ELSE t.f[k]],
+         {}, {p[1] : p \in lg}, {}, FALSE) @@ [lg |-> lg]     \* lg: <<point, y0, ln(y/y0)>> of exponentially extrapolated points
 \* domain of the documented formulas
 ExtrapolateDefined(t, fn, region, A) ==
   /\ \E k \in 1..Nn(t) : t.f[k] = "i"
@@ -337,6 +404,7 @@ ExtrapolateDefined(t, fn, region, A) ==
         /\ \A k \in fi..la : t.f[k] = "i"
         /\ fn = "sasha" => /\ t.y[fi] # RZero /\ t.y[la] # RZero
                            /\ t.y[fi + A] # t.y[fi] /\ t.y[la] # t.y[la - A]
+        /\ fn = "exponential" => t.y[fi] # RZero /\ t.y[la] # RZero
 
 (* potential_extrapolate.sh  "extrapolates a potential in the correct way depending on its
    type": left with lfct, then right with rfct; defaults exponential/constant (non-bonded,
@@ -344,7 +412,8 @@ ExtrapolateDefined(t, fn, region, A) ==
 PotExtrapolate(t, xs, type, lf, rf, A, C) ==
   LET L == Extrapolate(t, xs, lf, "left", A, C, TRUE)
       t2 == Tab(L.y, L.f)
-  IN Extrapolate(t2, xs, rf, "right", IF type = "non-bonded" THEN 1 ELSE A, C, TRUE)
+      R == Extrapolate(t2, xs, rf, "right", IF type = "non-bonded" THEN 1 ELSE A, C, TRUE)
+  IN [R EXCEPT !.lg = R.lg \cup L.lg, !.free = R.free \cup L.free]
 PotDefaultR(type) == CASE type = "non-bonded" -> "constant" [] type = "dihedral" -> "periodic" [] OTHER -> "linear"
 
 (* table_get_value.pl  "print the y value of x, which is closest to X"; tie: either *)
